@@ -2,7 +2,7 @@
 import math
 import numpy as np
 from fractions import Fraction
-from harness.core import import_cuqi, quiet, pm, close, vclose, mclose
+from harness.core import import_cuqi, quiet, pm, pv, q, qv, close, vclose, mclose
 
 BCS = ["zero", "periodic", "neumann", "backward", "none"]
 
@@ -172,8 +172,11 @@ def run(ctx):
             ctx.fail(key + ":quadratic", desc, "logpdf(x)-logpdf(mean) = -prec/2 |D(x-mean)|^2", quad,
                      "GMRF does not evaluate the shifted variable through the operator")
 
-    # histories on ONE object: reads after re-assigning prec / mean must be those of the current parameters
+    # histories on ONE object: reads after re-assigning prec / mean must be those of the current parameters.
+    # Tie: the same history is run on the state-machine model (Model/C20Hist.lean, driver op `gmrfhist`, theorems
+    # run_eq_fresh / reads_current); every read is diffed with the model's exact value, and judged by the oracle.
     nseq = 40 if not thorough else 400
+    hist_jobs = []
     for _ in range(nseq):
         pd = 1 if rng.rand() < 0.7 else 2
         order = int(rng.randint(0, 3)); bc = ["zero", "periodic", "neumann"][rng.randint(0, 3)]
@@ -182,40 +185,72 @@ def run(ctx):
             continue
         dim = n if pd == 1 else n * n
         P = np.array([[float(v) for v in r] for r in pm(Pmodel[(pd, order, bc, n)])])
-        mean = rng.randint(-3, 4, size=dim).astype(float); prec = float(rng.choice([0.5, 1.0, 2.0, 4.0]))
+        mean0 = rng.randint(-3, 4, size=dim).astype(float); prec0 = float(rng.choice([0.5, 1.0, 2.0, 4.0]))
         try:
             with quiet():
-                G = GMRF(mean, prec, bc_type=bc, order=order, **({} if pd == 1 else {"geometry": Image2D((n, n))}))
+                G = GMRF(mean0.copy(), prec0, bc_type=bc, order=order, **({} if pd == 1 else {"geometry": Image2D((n, n))}))
         except Exception:
             continue
-        ops = []
+        mean, prec = mean0.copy(), prec0
+        ops = []; script = []; reads = []
         key = f"GMRF:{pd}D:order{order}:{bc}:history"
         for step in range(int(rng.randint(3, 9))):
-            op = ["read_sqrtprec", "set_prec", "set_mean", "read_logpdf_diff", "read_sqrtprecTimesMean"][rng.randint(0, 5)]
+            op = ["read_sqrtprec", "set_prec", "set_mean", "read_logpdf_diff", "read_sqrtprecTimesMean", "read_gradient"][rng.randint(0, 6)]
             ops.append(op)
             desc = {"gmrf": f"{pd}D", "order": order, "bc": bc, "n": n, "ops": list(ops)}
-            with quiet():
+            try:
+              with quiet():
                 if op == "set_prec":
-                    prec = float(rng.choice([0.25, 0.5, 1.0, 2.0, 4.0, 8.0])); G.prec = prec
+                    prec = float(rng.choice([0.25, 0.5, 1.0, 2.0, 4.0, 8.0])); G.prec = prec; script.append("p=" + q(prec))
                 elif op == "set_mean":
-                    mean = rng.randint(-3, 4, size=dim).astype(float); G.mean = mean
+                    mean = rng.randint(-3, 4, size=dim).astype(float); G.mean = mean; script.append("m=" + qv(mean))
                 elif op == "read_sqrtprec":
-                    S = dense(G.sqrtprec)
+                    S = dense(G.sqrtprec); script.append("S"); reads.append(("S", desc, S.T @ S, 1e-6))
                     if not mclose(S.T @ S, prec * P, 1e-6):
-                        ctx.disagree(key, desc, "R^T R = prec*P (current prec)", "differs")
                         ctx.fail(key, desc, "sqrtprec^T sqrtprec = current prec * D^T D", "differs", "square-root precision is not that of the current precision after re-assignment")
                 elif op == "read_sqrtprecTimesMean":
-                    S = dense(G.sqrtprec); v = np.asarray(G.sqrtprecTimesMean).ravel()
+                    S = dense(G.sqrtprec); v = np.asarray(G.sqrtprecTimesMean).ravel(); script.append("T"); reads.append(("T", desc, S.T @ v, 1e-6))
                     if not vclose(S.T @ v, prec * (P @ mean), 1e-6):
-                        ctx.disagree(key, desc, "R^T (R mean) = prec*P*mean", "differs")
                         ctx.fail(key, desc, "sqrtprecTimesMean = sqrtprec @ current mean", "differs", "sqrtprecTimesMean is stale")
+                elif op == "read_gradient":
+                    x = rng.randint(-4, 5, size=dim).astype(float)
+                    try:
+                        g = np.asarray(G.gradient(x), float).ravel()
+                    except NotImplementedError:
+                        ops.pop(); continue          # gradients are refused on non-identity geometries (2-D): not a read
+                    script.append("g=" + qv(x)); reads.append(("g", desc, g, 1e-9))
+                    if not vclose(g, -prec * (P @ (x - mean)), 1e-9):
+                        ctx.fail(key, desc, "gradient = -prec D^T D (x - mean) for the current parameters", g.tolist(), "gradient uses stale parameters")
                 else:
                     x = rng.randint(-4, 5, size=dim).astype(float)
                     a, b0 = float(G.logpdf(x)), float(G.logpdf(mean))
-                    if math.isfinite(a) and math.isfinite(b0) and not close(a - b0, -0.5 * prec * float((x - mean) @ (P @ (x - mean))), 1e-8):
-                        ctx.disagree(key, desc, "quadratic form with current prec/mean", a - b0)
-                        ctx.fail(key, desc, "logpdf(x)-logpdf(mean) = -prec/2 |D(x-mean)|^2 for the current parameters", a - b0, "logpdf uses stale parameters")
+                    if math.isfinite(a) and math.isfinite(b0):
+                        script.append("q=" + qv(x)); reads.append(("q", desc, a - b0, 1e-8))
+                        if not close(a - b0, -0.5 * prec * float((x - mean) @ (P @ (x - mean))), 1e-8):
+                            ctx.fail(key, desc, "logpdf(x)-logpdf(mean) = -prec/2 |D(x-mean)|^2 for the current parameters", a - b0, "logpdf uses stale parameters")
+            except Exception as e:
+                ctx.disagree(key, desc, "a value", repr(e)[:200], "a read or a setter raised during the history")
+                ctx.fail(key, desc, "reads and setters of a constructed GMRF return", repr(e)[:200], "a read or a setter raised during the history")
+                break
         ctx.case("gmrf-history", {"gmrf": f"{pd}D", "order": order, "bc": bc, "n": n, "ops": ops})
+        if reads:
+            hist_jobs.append((key, "gmrfhist %s %s %s %s" % (Pmodel[(pd, order, bc, n)], q(prec0), qv(mean0), "/".join(script)), reads))
+    houts = ctx.lean.drive([j[1] for j in hist_jobs])
+    for (key, _, reads), out in zip(hist_jobs, houts):
+        if out in ("bad-op", "_"):
+            ctx.note(f"model refused a GMRF history: {out}"); continue
+        vals = [t.strip() for t in out.split("|")]
+        if len(vals) != len(reads):
+            ctx.disagree(key, reads[-1][1], len(vals), len(reads), "number of reads differs"); continue
+        for (kind, desc, got, tol), mv in zip(reads, vals):
+            if kind == "q":
+                ok = close(got, float(Fraction(mv)), tol)
+            elif kind == "S":
+                ok = mclose(got, np.array([[float(v) for v in r] for r in pm(mv)]), tol)
+            else:
+                ok = vclose(got, [float(v) for v in pv(mv)], tol)
+            if not ok:
+                ctx.disagree(key, desc, mv[:200], np.asarray(got).tolist() if kind != "q" else got, f"read {kind} after the history differs from the state-machine model")
 
     # LMRF / CMRF: D(x - location) with the first-order operator
     dlines, dmeta = [], []
